@@ -312,16 +312,27 @@ def run(ctx):
             hcalls.append({'api': 'rglob', 'pattern': pat_, 'flags': GS, 'root': hroot})
         rng.shuffle(hcalls)
         hcalls = hcalls[: 40 if ctx.quick else 160]
+        # pure paths: rooted and relative patterns under the same flags (the rooted ones switch the implicit prefix off - for themselves only)
+        for fl_h in (0, GS, GS | DG):
+            for pat_, nm_ in (('/srv/*/*.py', '/srv/app/main.py'), ('mod.*', 'pkg/sub/mod.py'), ('sub/*.py', 'pkg/sub/mod.py'), ('/srv/**', '/srv/app/main.py'),
+                              ('*.py', 'pkg/sub/mod.py'), ('/*.py', '/mod.py'), ('app/*.py', '/srv/app/main.py')):
+                hcalls.append({'api': 'pure_match', 'pattern': pat_, 'flags': fl_h, 'name': nm_})
+                hcalls.append({'api': 'pure_globmatch', 'pattern': pat_, 'flags': fl_h, 'name': nm_})
         envh = dict(os.environ)
         fresh = []
         for c_ in hcalls:
             pr = subprocess.run([sys.executable, os.path.join(os.path.dirname(os.path.abspath(one_call.__file__)), 'one_call.py'), json.dumps(c_)],
                                 capture_output=True, text=True, env=envh, timeout=120)
             fresh.append(json.loads(pr.stdout.strip().split('\n')[-1]) if pr.returncode == 0 and pr.stdout.strip() else 'SUBPROCESS-FAILED ' + pr.stderr[-200:])
-        for order in ('forward', 'reverse', 'translate-first', 'match-first'):
+        for order in ('forward', 'reverse', 'translate-first', 'match-first', 'rooted-first', 'rooted-last'):
             idxs = list(range(len(hcalls)))
+            clear_caches()      # the documented caches start empty in every order: whatever else remembers must not show
             if order == 'reverse':
                 idxs.reverse()
+            elif order == 'rooted-first':
+                idxs.sort(key=lambda k: not hcalls[k]['pattern'].startswith('/'))
+            elif order == 'rooted-last':
+                idxs.sort(key=lambda k: hcalls[k]['pattern'].startswith('/'))
             elif order == 'translate-first':
                 idxs.sort(key=lambda k: hcalls[k]['api'] != 'gtranslate')
             elif order == 'match-first':
